@@ -113,13 +113,20 @@ func durationStringAt(i int) string {
 	return fmt.Sprintf("%s%dm", sign, d[1])
 }
 
-func c01Families(tier fw.Tier) []docFamily {
-	return cachedFamilies("c01/"+string(tier), func() []docFamily {
+// c01Families is the family list for C01 itself (wide: 3 entries per record and more edit pairs
+// already in the quick tier); the checks that reuse these documents with costlier per-document work
+// (C08, C09, C10, C20) use sharedFamilies.
+func c01Families(tier fw.Tier) []docFamily { return docFamilies(tier, true) }
+
+func sharedFamilies(tier fw.Tier) []docFamily { return docFamilies(tier, tier == fw.Thorough) }
+
+func docFamilies(tier fw.Tier, wide bool) []docFamily {
+	return cachedFamilies(fmt.Sprintf("c01/%s/%v", tier, wide), func() []docFamily {
 		thorough := tier == fw.Thorough
 		var fs []docFamily
 		// FA: structure x values, canonical formatting
 		me := 2
-		if thorough {
+		if wide {
 			me = 3
 		}
 		fa1 := docgen.FA1(me)
@@ -184,8 +191,11 @@ func c01Families(tier fw.Tier) []docFamily {
 			return bases[k].Apply(bases[k].Edits[i-off[k]]), nil, false
 		}})
 		nb := 6
+		if wide {
+			nb = 14
+		}
 		if thorough {
-			nb = 40
+			nb = 60
 		}
 		if nb > len(bases) {
 			nb = len(bases)
@@ -237,7 +247,7 @@ func init() {
 	fw.Register(&fw.Check{
 		ID:    "C01",
 		Title: "Parser accepts exactly spec-conforming files and extracts the denoted data",
-		Rule: "documents enumerated from the spec grammar: FA1/FA2/FA3 = 1-3 records x (date, should-total, record summary, <=2-3 entries from a 10-value menu x 5 entry-summary shapes); " +
+		Rule: "documents enumerated from the spec grammar: FA1/FA2/FA3 = 1-3 records x (date, should-total, record summary, <=2-3 entries from a 10-value menu x 6 entry-summary shapes); " +
 			"FB = shapes x indentation per record x LF/CRLF/mixed x blank-line runs x final newline x headline gap; FC = every time string <?D{1,2}:DD(am|pm)?>? as range start/end/open start, " +
 			"every duration layout as entry and should-total, dates as headlines; FD1/FD2 = every single (and pair of) rule-violating edit(s) from an 90-operator catalogue at every line of ~100 valid base documents. " +
 			"A case is one document text; non-trivial = classified valid or invalid by the reference (don't-care texts are counted separately); distinct by FNV-64 of the text.",
